@@ -18,7 +18,7 @@ RULE = ("cases = (pattern with capture groups: optional, nested, named, alternat
         "unclosed '${' text backslash, occasionally a braced name with odd characters; input of 1-12 lines over a "
         "dense small alphabet, LF or CRLF, with or without final terminator; flags -i/-w). Modes: -r T (every "
         "matching line = replace_all(content, T) + terminator), -o -r T (one record per match = its expansion), "
-        "-r T -C1 and -v -C1 -r T (every printed line, matching or context, equals replace_all of its original; "
+        "-r T -C1, -v -C1 -r T, -m1 -A3 -r T and -m2 -C2 -r T (every printed line, matching or context, equals replace_all of its original; "
         "lines without a match unaltered), --column -r T (column = first match start + 1 in the ORIGINAL line), "
         "-U --passthru -r T (= replace_all over the whole input). Non-trivial = at least one line matches and "
         "the replacement changes it; distinct by (pattern, template, flags, input).")
@@ -87,7 +87,12 @@ def cli_case(case, env):
             viol("only-matching-expansions", "stdout %s, library expansions %s" % (esc(r[1][:120]), esc(want[:120])),
                  {"stdout": esc(r[1][:2000]), "expected": esc(want[:2000])})
     # C: context and inverted context: every printed line is the replace_all of its original
-    for mode, extra in (("context", ["-n", "-C1", "-r", T]), ("inverted-context", ["-n", "-v", "-C1", "-r", T])):
+    for mode, extra in (("context", ["-n", "-C1", "-r", T]), ("inverted-context", ["-n", "-v", "-C1", "-r", T]),
+                        # a match limit with trailing context: matching lines
+                        # inside the window of the last counted match are
+                        # still printed, and still replaced
+                        ("limit-after-context", ["-n", "-m1", "-A3", "-r", T]),
+                        ("limit-context", ["-n", "-m2", "-C2", "-r", T])):
         r = run(extra)
         if r is None:
             continue
